@@ -11,7 +11,7 @@ ENGINE = "gen_closure_exits"
 RULE = ("programs = array::map! / map_! / from_fn! / from_fn_! (typed and untyped forms) whose closure performs an early exit at "
         "element k of n (n in 1..=4): break, continue, break/continue to a label outside the macro, return, `?`, panic!, "
         "or none (control); closure parameter forms `x`, `x: T`, `mut x`, `ref mut x` (the closure changes its own parameter) and `ref x`; element types: a Copy stamp struct and a ledger-tracked Drop type; the closure counts its calls and "
-        "panics after 10 000 calls so that looping is observed as a counted panic; each program is compiled alone (a compile "
+        "panics after 10 000 calls so that looping is observed as a counted panic; the calling crate shadows assert!/debug_assert!/assert_eq!/assert_ne!/unreachable! with macros that never panic; each program is compiled alone (a compile "
         "error is an allowed outcome) and, if it compiles, run under catch_unwind; oracle: the outcome must be one of {does not "
         "compile, panics, leaves the macro without producing an array (return / ? / labelled break), returns an array whose every "
         "element carries the magic stamp and the index the closure wrote}; a returned array with any other content is a "
@@ -20,7 +20,16 @@ RULE = ("programs = array::map! / map_! / from_fn! / from_fn_! (typed and untype
         "parameter, counted per distinct program")
 
 PRELUDE = r'''
-#![allow(unused, unreachable_code, clippy::all)]
+#![allow(unused, unreachable_code, unused_macros, clippy::all)]
+// a hostile (but legal) calling crate: the assertion macros are shadowed by versions that never panic.  macro_rules!
+// bodies resolve unqualified macro names at the call site, so a library macro whose safety rests on `assert!` must name
+// it by a path of its own
+macro_rules! assert { ($($t:tt)*) => { () }; }
+macro_rules! debug_assert { ($($t:tt)*) => { () }; }
+macro_rules! assert_eq { ($($t:tt)*) => { () }; }
+macro_rules! assert_ne { ($($t:tt)*) => { () }; }
+macro_rules! debug_assert_eq { ($($t:tt)*) => { () }; }
+macro_rules! unreachable { ($($t:tt)*) => { () }; }
 use std::cell::Cell;
 const MAGIC: u64 = 0x5AFE_C0DE_D00D_F00D;
 #[derive(Debug, Clone, Copy)]
